@@ -87,8 +87,8 @@ def main():
             results[mid] = res
             save()
             own = ms[mid][1]
-            caught = [p for p, r in res.items() if isinstance(r, dict) and r.get('exit') == 1]
-            print('%-10s own=%s caught_by=%s %s' % (mid, ','.join(own), ','.join(caught) or '-', ' ; '.join('%s:%s' % (p, r.get('clause')) for p, r in res.items() if isinstance(r, dict) and r.get('exit') == 1)), flush=True)
+            caught = [p for p, r in res.items() if isinstance(r, dict) and r.get('exit') == 1 and r.get('detail', '').strip()]
+            print('%-10s own=%s caught_by=%s %s' % (mid, ','.join(own), ','.join(caught) or '-', ' ; '.join('%s:%s' % (p, r.get('clause')) for p, r in res.items() if isinstance(r, dict) and r.get('exit') == 1 and r.get('detail', '').strip())), flush=True)
             for p, r in res.items():
                 if isinstance(r, dict) and r.get('exit') not in (0, 1):
                     print('    %s exit=%s %s' % (p, r.get('exit'), r.get('detail', '')[:300]), flush=True)
